@@ -8,6 +8,7 @@ C09.conserve : typestate analysis of cst_scanner / cst_scan proving the invarian
    O3 no duplication  a buffer is never emitted twice, nor appended to after emission, without clear
    O4 final flush     at every exit the buffers are empty or emitted-and-cleared
    O5 output purity   the output list only ever receives valid joins of a buffer
+C09.bounds  : no slice bound in the scanner is a find()/rfind() result on which -1 has not been excluded.
 C09.lines    : line accounting in cst_parse_one_node / set_prev_node / cst_parser / cst_parse.
 """
 
@@ -354,6 +355,61 @@ def summarize_helper(fn):
     return eff
 
 
+def _bounds(ctx, index):
+    """
+    C09.bounds: in the scanner (cst_scanner, cst_scan and their nested helpers) a slice bound that is the
+    result of str.find / str.rfind must be used only where a dominating test has excluded -1: `s[a:s.find(x)]`
+    with no match is `s[a:-1]`, which silently drops the last character — exactly the "input whose last line
+    has no newline" case. Independent of the typestate analysis, so it is reported even when the scanner was
+    restructured beyond what the typestate engine recognises.
+    """
+    from ..defuse import local_defs
+    from ..walker import GuardWalker
+
+    roots = [index.func("cdd.shared.cst_utils.cst_scanner"), index.func("cdd.shared.cst_utils.cst_scan")]
+    funcs = roots + [g for g in index.funcs.values() if g.outer in roots]
+    n = 0
+    for f in funcs:
+        defs = local_defs(f)
+        facts_at = {}
+        GuardWalker(on_expr=lambda x, fa, _d=facts_at: _d.__setitem__(id(x), fa)).walk_function(f.node)
+        for x in iter_own(f.node):
+            if not (isinstance(x, ast.Subscript) and isinstance(x.slice, ast.Slice)):
+                continue
+            for b in (x.slice.lower, x.slice.upper):
+                if b is None:
+                    continue
+                var = None
+                if isinstance(b, ast.Call) and isinstance(b.func, ast.Attribute) and b.func.attr in ("find", "rfind"):
+                    var = ""
+                elif isinstance(b, ast.Name) and any(
+                    isinstance(d, ast.Call) and isinstance(d.func, ast.Attribute) and d.func.attr in ("find", "rfind") for d in defs.get(b.id, [])
+                ):
+                    var = b.id
+                if var is None:
+                    continue
+                n += 1
+                facts = facts_at.get(id(x)) or {}
+                excluded = bool(var) and any(
+                    (k in ("{} == -1".format(var), "{} < 0".format(var)) and v is False)
+                    or (k in ("{} != -1".format(var), "{} > -1".format(var), "{} >= 0".format(var)) and v is True)
+                    for k, v in facts.items()
+                    if isinstance(k, str)
+                )
+                ctx.ob(
+                    "C09.bounds",
+                    f,
+                    x,
+                    excluded,
+                    ""
+                    if excluded
+                    else "a slice bound comes from str.find()/rfind() and -1 (no match) has not been excluded here: the slice then "
+                    "ends at the LAST BUT ONE character, so the final character of an input without a trailing newline is lost",
+                    line=x.lineno,
+                )
+    ctx.count("find_derived_slice_bounds_in_scanner", n)
+
+
 def run(ctx):
     """entry"""
     index = ctx.index
@@ -369,6 +425,7 @@ def run(ctx):
         "strip()-based predicates only choose a branch; they never produce output (checked by O5)",
         "a restructured scanner yields ANALYSIS-ERROR (exit 2), never a silent pass",
     ]
+    ctx.section(_bounds, ctx, index)
     scan = index.func("cdd.shared.cst_utils.cst_scan")
     scanner = index.func("cdd.shared.cst_utils.cst_scanner")
     helpers = {}
